@@ -173,6 +173,11 @@ def run():
     tier = chk.tier
     models = run_models(tier, chk)
     seq_diff_model(chk, 2 if chk.quick else 3)
+    # the step from the line based string diff to the character based one (FlattenDiff.tla), compared with nbdime's
+    from . import flatten
+    flatten.flatten_model(chk, 2)
+    if not chk.quick:
+        flatten.flatten_model(chk, 3, emit=False)
 
     # ---- spec -> code ------------------------------------------------------
     nrep = 0
